@@ -250,7 +250,9 @@ func (s *CoAServer) receiveLoop(ctx context.Context) {
 		length := binary.BigEndian.Uint16(buf[2:4])
 		authenticator := buf[4:20]
 
-		if int(length) > n {
+		// RFC 2865: the minimum packet length is 20; a shorter Length field must be
+		// discarded (slicing buf[20:length] below would panic and kill the listener).
+		if int(length) < 20 || int(length) > n {
 			continue
 		}
 
